@@ -328,7 +328,7 @@ def rand_scripted(rng, **kw):
 def rand_sorted(rng, **kw):
     d = {"kind": "sorted", "algo": rng.choice(["greedy", "rr"]), "sort": rng.choice(SORTS),
          "est": rng.choice([None, None, "rampdown", "fixed"]), "unint": rng.random() < 0.4,
-         "inc": rng.choice([0.1, 0.5, 1]), "over": rng.random() < 0.08,
+         "inc": rng.choice([0.1, 0.5, 1, 0.25, 0.125, 0.15, 0.3, 1.5, 0.05, 2, 0.75]), "over": rng.random() < 0.08,
          # half of the callers leave out every option whose value is the documented default (the defaults are part of the API)
          "terse": rng.random() < 0.5}
     d.update(kw)
@@ -492,8 +492,10 @@ def scenario(rng, sched="scripted", nmax=6, sess_max=7, horizon=25, kinds=("EVSE
         net["num_type"] = {"phase": rng2.choice(["int8", "int16", "float16", "float32", "int32"]),
                            "voltage": rng2.choice(["int16", "uint16", "uint8", "float32", "float16", "int32"])}
     if rng2.random() < int_type_p:
-        # period indices as they come out of a numpy table / a pandas column: numpy integer scalars, unsigned ones included
-        d["int_type"] = rng2.choice(["uint16", "uint8" if last < 200 else "uint32", "uint32", "uint64", "int16", "int32", "int64"])
+        # period indices as they come out of a numpy table / a pandas column: numpy integer scalars.  Signed ones only: with
+        # unsigned indices the library's own differences (estimated departure - now, arrival - now) wrap around for an overdue
+        # or already arrived car on the unchanged tree, i.e. the input class is outside what the code supports (DESIGN 13)
+        d["int_type"] = rng2.choice(["int16", "int32", "int64", "int8" if last < 100 else "int64"])
     return d
 
 
